@@ -54,11 +54,27 @@ func modN(a *big.Int) *big.Int   { return new(big.Int).Mod(a, bigN) }
 func fromB(b []byte) *big.Int    { return new(big.Int).SetBytes(b) }
 func b32(v *big.Int) []byte      { return ref.Bytes32(v) }
 
+// cp copies a byte slice for handing to the library and preserves what kind
+// of "nothing" it is: nil stays nil, a zero-length non-nil slice stays one
+// ([]byte{} with no capacity, or a zero-length sub-slice of a non-empty
+// buffer) - code that tests `x == nil` where it means `len(x) == 0` treats
+// them differently.
 func cp(b []byte) []byte {
-	if b == nil {
+	switch {
+	case b == nil:
 		return nil
+	case len(b) == 0 && cap(b) > 0:
+		return emptySubSlice()
+	case len(b) == 0:
+		return []byte{}
 	}
 	return append([]byte{}, b...)
+}
+
+// emptySubSlice is buf[:0] of a non-empty buffer: length 0, non-nil, data behind it.
+func emptySubSlice() []byte {
+	buf := []byte("not-a-user-id---")
+	return buf[:0]
 }
 
 // ---------------------------------------------------------------- randomness handed to the library
@@ -136,11 +152,17 @@ func ecdhRand(r []byte, reject int) *scriptReader {
 // ---------------------------------------------------------------- user ids
 
 // uidSpec describes a user id: N > 0 pseudo-random bytes from Seed, N == 0 none
-// given (both implementations document the default id 1234567812345678),
-// N == -1 the default id spelled out.
+// given, N == -1 the default id spelled out. "None given" comes in three Go
+// flavours, selected by Empty (an explicit field: nil and empty byte strings
+// look the same in JSON): 0 = nil, 1 = []byte{}, 2 = buf[:0] of a non-empty
+// buffer. Both packages map every length-0 id to the default id
+// 1234567812345678 (sm2.NewKeyExchange and SetPeerParameters test
+// `len(uid) == 0` / `len(peerUID) == 0`, ecdh's sm2za tests `len(uid) == 0`),
+// so all three must behave alike and the two packages must agree.
 type uidSpec struct {
-	N    int
-	Seed uint64
+	N     int
+	Seed  uint64
+	Empty int
 }
 
 func (u uidSpec) bytes() []byte {
@@ -148,6 +170,12 @@ func (u uidSpec) bytes() []byte {
 	case u.N < 0:
 		return cp(ref.DefaultUID)
 	case u.N == 0:
+		switch u.Empty {
+		case 1:
+			return []byte{}
+		case 2:
+			return emptySubSlice()
+		}
 		return nil
 	}
 	return gen.Fill(gen.Mix(u.Seed, 0x756964), u.N)
@@ -165,8 +193,12 @@ func (u uidSpec) class() string {
 	switch {
 	case u.N < 0:
 		return "uid:default-spelled-out"
+	case u.N == 0 && u.Empty == 1:
+		return "uid:zero-length non-nil []byte{}->default"
+	case u.N == 0 && u.Empty == 2:
+		return "uid:zero-length sub-slice buf[:0]->default"
 	case u.N == 0:
-		return "uid:empty->default"
+		return "uid:nil->default"
 	case u.N == 1, u.N == 16, u.N == 64, u.N == maxUID:
 		return fmt.Sprintf("uid:len=%d", u.N)
 	case u.N > maxUID:
@@ -180,8 +212,15 @@ func drawUID(t *rapid.T, label string) uidSpec {
 	if n == -2 {
 		n = rapid.IntRange(1, 200).Draw(t, label+"LenAny")
 	}
-	return uidSpec{N: n, Seed: rapid.Uint64().Draw(t, label+"Seed")}
+	u := uidSpec{N: n, Seed: rapid.Uint64().Draw(t, label+"Seed")}
+	if n == 0 {
+		u.Empty = rapid.IntRange(0, 2).Draw(t, label+"EmptyFlavour")
+	}
+	return u
 }
+
+// special reports whether the id is more than "nil -> default".
+func (u uidSpec) special() bool { return u.N != 0 || u.Empty != 0 }
 
 // ---------------------------------------------------------------- scalars
 
